@@ -61,7 +61,7 @@ type dbDump map[string][]byte
 func NewMonitor(w *World, report Reporter) *Monitor {
 	m := &Monitor{W: w, S: w.S, Tree: NewTree(w.P), Report: report, lastF: map[int]uint32{}, nowF: map[int]uint32{}, firstID: map[int]map[uint32]string{}, finalEvents: map[int][][2]uint32{}, raises: map[int]int{},
 		stepApplied: map[int][]*TreeBlock{}, dumps: map[int]map[string]dbDump{}, pendingDel: map[int][]*consensus.EventBlockDeleteMessage{}, finalized: map[uint32]string{}, finalizedBy: map[uint32]string{},
-		Enabled: map[string]bool{"C01": true, "C02": true, "C04": true, "C05": true, "C15": true, "C03": true, "C09": true, "C19": true}}
+		Enabled: map[string]bool{"C01": true, "C02": true, "C04": true, "C05": true, "C15": true, "C03": true, "C09": true, "C19": true, "C13": true}}
 	for _, n := range w.S.Nodes {
 		n.OnEventSync = m.onEventSync
 	}
@@ -611,7 +611,18 @@ func (m *Monitor) afterRestart(n *Node) {
 	m.lastF[n.ID] = f
 	m.raises[n.ID] = len(m.finalEvents[n.ID])
 	if tb != nil {
+		m.vmu.Lock()
+		before := len(m.verdicts)
+		m.vmu.Unlock()
 		m.checkBFT(n, tb)
+		// a consensus store that does not belong to the tip right after a restart is also C13's business
+		m.vmu.Lock()
+		for _, v := range m.verdicts[before:] {
+			if v[0] == "C02" {
+				m.verdicts = append(m.verdicts, [4]string{"C13", "consensus-state-after-restart", v[2], v[3]})
+			}
+		}
+		m.vmu.Unlock()
 	}
 	if m.firstID[n.ID] != nil {
 		for h, old := range m.firstID[n.ID] {
@@ -628,6 +639,7 @@ func (m *Monitor) afterRestart(n *Node) {
 			}
 		}
 	}
+	m.Integrity(n, "after-restart")
 	simkit.Probe("restart_checked")
 }
 
